@@ -785,6 +785,9 @@ func (p *Parser[V]) Parse(str string, idents Identifiers[V]) (ast AST, err error
 			SetComments(p.allowComments).
 			SetComfort(p.comfort).
 			Start()
+	// Consumes the remaining tokens if parsing stops before the end of the input is
+	// reached. Otherwise, the goroutine started by the tokenizer is blocked forever.
+	defer tokenizer.drain()
 
 	ast, err = p.parseLet(tokenizer, idents)
 	if err != nil {
